@@ -360,7 +360,11 @@ func (s *Server) Modify(ms spb.GRIBI_ModifyServer) error {
 					return
 				}
 			case in.Operation != nil:
-				s.doModify(cid, in.Operation, resultChan, errCh)
+				if !s.doModify(cid, in.Operation, resultChan, errCh) {
+					// A fatal error was reported and the RPC is being torn down,
+					// stop reading from the stream.
+					return
+				}
 				skipWrite = true
 			default:
 				errCh <- status.Errorf(codes.Unimplemented, "unimplemented handling of message %s", in)
@@ -776,12 +780,14 @@ func (s *Server) getElection() *electionDetails {
 // doModify implements a modify operation for a specific input set of AFTOperation
 // messages for the client with the specified cid. It writes the result to the supplied
 // ModifyResponse channel when successful, or writes the error to the supplied errCh.
-func (s *Server) doModify(cid string, ops []*spb.AFTOperation, resCh chan *spb.ModifyResponse, errCh chan error) {
+// It returns false if an error that is fatal to the Modify RPC was written to errCh,
+// in which case no further operations are processed.
+func (s *Server) doModify(cid string, ops []*spb.AFTOperation, resCh chan *spb.ModifyResponse, errCh chan error) bool {
 	cs, ok := s.getClientState(cid)
 	switch {
 	case !ok:
 		errCh <- status.Newf(codes.Internal, "operation received for unknown client, %s", cid).Err()
-		return
+		return false
 	case cs.params == nil || !cs.params.ExpectElecID || !cs.params.Persist:
 		// these are parameters that we do not support.
 		errCh <- addModifyErrDetailsOrReturn(
@@ -789,7 +795,7 @@ func (s *Server) doModify(cid string, ops []*spb.AFTOperation, resCh chan *spb.M
 			&spb.ModifyRPCErrorDetails{
 				Reason: spb.ModifyRPCErrorDetails_UNSUPPORTED_PARAMS,
 			})
-		return
+		return false
 	}
 
 	elec := s.getElection()
@@ -842,10 +848,12 @@ func (s *Server) doModify(cid string, ops []*spb.AFTOperation, resCh chan *spb.M
 		switch {
 		case err != nil:
 			errCh <- err
+			return false
 		default:
 			resCh <- res
 		}
 	}
+	return true
 }
 
 // electionDetails provides a summary of a single election from the perspective of one client.
